@@ -543,14 +543,14 @@ impl TrigramIndex {
     }
     fn collect_grams(text: &TextRef) -> (ret: Vec<[char; 3]>)
     {
-        let mut __sum0: usize = 0;
+        let mut __acc0: usize = 0;
         let __end0 = text.words.len();
         for __i0 in 0..__end0
         {
             let w = &text.words[__i0];
-            __sum0 += w.len();
+            __acc0 += w.len();
         }
-        let cap = __sum0;
+        let cap = __acc0;
         let mut grams = Vec::with_capacity(cap);
         let __end1 = text.words.len();
         for __i1 in 0..__end1
